@@ -536,15 +536,15 @@ def dedup(emitted):
     return res
 
 
-def simulate_histories(ctx, runs, num, depth):
+def simulate_histories(ctx, runs, num, depth, cfg='MC_CalendarReg_sim.cfg', seed0=0):
     """`runs` independent single-worker TLC simulations (seeded, hence reproducible) side by side"""
     from concurrent.futures import ThreadPoolExecutor
-    kws = [dict(simulate=num, depth=depth + 1, seed=ctx.seed * 101 + i + 1, workers=1, heap='1g', env=JVM) for i in range(runs)]
+    kws = [dict(simulate=num, depth=depth + 1, seed=ctx.seed * 101 + seed0 + i + 1, workers=1, heap='1g', env=JVM) for i in range(runs)]
     par = max(1, min(runs, nproc()))
     cap = os.environ.pop('VERIF_TLC_WORKERS', None)     # (it would override workers=1; a simulation is reproducible with one worker only)
     try:
         with ThreadPoolExecutor(par) as ex:
-            rs = list(ex.map(lambda kw: tlc.run('MC_CalendarReg', 'MC_CalendarReg_sim.cfg', **kw), kws))
+            rs = list(ex.map(lambda kw: tlc.run('MC_CalendarReg', cfg, **kw), kws))
     except tlc.TLCError as e:
         raise Machinery(str(e))
     finally:
@@ -553,14 +553,14 @@ def simulate_histories(ctx, runs, num, depth):
     emitted = []
     for r in rs:
         if r.violated:
-            raise Machinery('generator MC_CalendarReg/MC_CalendarReg_sim.cfg violated %s' % r.violated)
+            raise Machinery('generator MC_CalendarReg/%s violated %s' % (cfg, r.violated))
         ctx.states += r.distinct; ctx.transitions += r.generated
         ctx.tlc_runs.append({'kind': 'S2C-generate', 'cmd': r.cmd, 'generated': r.generated, 'distinct': r.distinct,
                              'wall_s': round(r.wall, 1), 'emitted': len(r.emitted)})
         emitted += r.emitted
     emitted = dedup(emitted)
     if not emitted:
-        raise Machinery('generator MC_CalendarReg/MC_CalendarReg_sim.cfg emitted nothing')
+        raise Machinery('generator MC_CalendarReg/%s emitted nothing' % cfg)
     return emitted
 
 
@@ -996,11 +996,19 @@ def run(ctx):
                 '(all holiday subsets of a window across a weekend and a month end x 4 weekends x f/p/m x ranges that are wide, tight, or begin / end '
                 'exactly on the window so that the first / last day is a holiday or a weekend day) x every day - incl. single-day and backward '
                 'dranges and a passed adj on both paths of add - replayed on real Calendar objects (made by the class, by calendar(key, ...) or '
-                'by calendar(obj)); (b) random histories of the registry machine MC_CalendarReg (every subset of holidays / weekend / t0 / t1 given, '
-                'not given or given empty, by key and by object, old handles registered again) replayed through calendar(...)/Calendar(...), each '
-                'followed by every final question TLC printed for the state reached. C2S: random 2-year calendars (holiday density 0-40 %, runs '
-                'across month ends and weekends), queries with n in -40..40; tight calendars asked at their ends; random histories of '
-                're-registrations on real calendars; all validated by Trace_Calendar by counting on ordinals. '
+                'by calendar(obj)); every line is a session on ONE object: the cases (the day carried by a midnight datetime, a datetime with a time '
+                'of day, a pandas Timestamp, a datetime.date - named by TLC; questions that leave the range included: the answer by counting or a '
+                'refusal), then - the table built - phase 2: the table-free questions again under another realisation; '
+                '(b) histories of the registry machine MC_CalendarReg (every subset of holidays / weekend / t0 / t1 given, '
+                'not given or given empty, by key and by object, old handles registered again; the caller\'s own actions obj.adj = a, Calendar(obj) / '
+                'obj.copy(), obj(adj = a), Calendar(calendar(k)); AskAll = every question of the menu put to one object) replayed through '
+                'calendar(...)/Calendar(...): all sessions "construct ; ask all ; edit ; edit" enumerated breadth first, and random histories, each '
+                'followed by every final question TLC printed for the state reached (law: an answer depends on the configuration the object has '
+                'NOW - no memory of earlier answers, copies independent). C2S: random 2-year calendars (holiday density 0-40 %, runs '
+                'across month ends and weekends; half of the object-made ones first answer the same days under another convention, then get their '
+                'adj set), queries with n in -40..40 under random realisations; tight calendars asked at and beyond their ends (refusal or the day '
+                'by counting); random histories of re-registrations, adj edits and copies on real calendars; all validated by Trace_Calendar by '
+                'counting on ordinals. '
                 'Non-trivial = the calendar has at least one holiday (arith: distinct (configuration, day); C2S: distinct query); '
                 'history: at least two registrations and a final question.')
     q = ctx.quick
@@ -1021,16 +1029,24 @@ def run(ctx):
     ses = ctx.generate('MC_CalendarReg', 'MC_CalendarReg_ses.cfg' if q else 'MC_CalendarReg_ses_thorough.cfg', env=JVM)
     ctx.extra['sessions'] = len(ses)
     spread(ctx, s2c_registry, ses)
-    spread(ctx, s2c_registry, simulate_histories(ctx, 4, 300 if q else 2500, 7))
+    spread(ctx, s2c_registry, simulate_histories(ctx, 4, 300 if q else 2000, 7))
+    if not q:       # longer sessions
+        spread(ctx, s2c_registry, simulate_histories(ctx, 4, 700, 10, cfg='MC_CalendarReg_sim_thorough.cfg', seed0=50))
     for fam in ('histories_with_caller_edit_after_questions', 'history_questions_beyond_range', 'history_questions_other_realisation'):
         if not ctx.extra.get(fam):
             raise Machinery('the history generators left a family of cases empty: %s' % fam)
     c2s(ctx, 160 if q else 1600, 150, 60 if q else 600, 150 if q else 1500, 24)
     ctx.exhaustive = False
     ctx.assumptions += [
-        'holidays are given as midnight datetimes inside the calendar range; days asked about are midnight datetimes',
-        'claimed domain: the day asked about, the adjusted day and the result lie inside [t0, t1] (C2S: 130 holiday-free days at both ends, or - '
-        'tight calendars and histories - Trace_Calendar leaves questions outside the domain unjudged)',
+        'holidays are given as midnight datetimes inside the calendar range; days asked about are carried by a datetime (midnight or with a '
+        'time of day), a pandas Timestamp or a datetime.date (strings, ints, numpy datetime64 are not put to is_bday/adjust/add: the unchanged '
+        'code has no weekday()/month for them)',
+        'RefusalBeyondRange: where the adjusted day, an intermediate day or the result of a posed question leaves [t0, t1] the call may raise '
+        'KeyError / IndexError / ValueError; an answer, if given, must be the day by counting (only weekends are skipped outside the range)',
+        'the caller edits only the adj of a handle it holds outside the registry (Calendar(...), a copy); in-place edits of holidays / weekend / '
+        't0 / t1 of a calendar object, and of the lists passed to calendar(...), are not modelled',
+        'claimed domain (an answer is owed): the day asked about, the adjusted day and the result lie inside [t0, t1] (C2S: 130 holiday-free days '
+        'at both ends, or - tight calendars and histories - Trace_Calendar judges posed questions beyond the range as answer-or-refusal)',
         'is_holiday is not pinned by the statement (accepted as "not a business day" or "a listed holiday"); bdays(t, u) and clock '
         'differences are judged only where the end points named by the statement are business days',
         '"registered with" is read literally: calendar(key, ...) registers what the call gives and the documented defaults for the rest; '
